@@ -138,6 +138,12 @@ func buildMsg(kind string, v int) any {
 			ResponsePayload: &payloads.GetResponsePayload{ObjectType: kmip.ObjectTypeSecretData, UniqueIdentifier: "id",
 				Object: &kmip.SecretData{SecretDataType: kmip.SecretDataTypePassword, KeyBlock: kmip.KeyBlock{KeyFormatType: kmip.KeyFormatTypeOpaque,
 					KeyValue: &kmip.KeyValue{Plain: &kmip.PlainKeyValue{KeyMaterial: kmip.KeyMaterial{Bytes: &key}}}}}}}}}
+	case "RespGetCustom":
+		// custom and unknown attributes whose values depend on v: decoded by many goroutines at once, each gets its own values
+		return &kmip.ResponseMessage{Header: sh, BatchItem: []kmip.ResponseBatchItem{{Operation: kmip.OperationGetAttributes,
+			ResponsePayload: &payloads.GetAttributesResponsePayload{UniqueIdentifier: "id", Attribute: []kmip.Attribute{
+				{AttributeName: "x-serial", AttributeValue: int32(1000 + v)}, {AttributeName: "y-label", AttributeValue: fmt.Sprintf("label-%d", v)},
+				{AttributeName: "Vendor Thing", AttributeValue: int64(77000 + v)}, {AttributeName: kmip.AttributeNameCryptographicLength, AttributeValue: int32(128 + v)}}}}}}
 	case "RespGetSecret":
 		// the same payload structure as RespGet carrying another concrete object type: plans are per structure, the value varies
 		return &kmip.ResponseMessage{Header: sh, BatchItem: []kmip.ResponseBatchItem{{Operation: kmip.OperationGet,
